@@ -104,7 +104,11 @@ def run_instance(inst):
             except Exception as e:  # noqa: BLE001
                 res["violations"].append(dict(what=f"stored module ({label}) cannot be loaded: {type(e).__name__}: {e}", replay=dict(harness="C17", inst=inst, kind="load", variant=label)))
                 continue
-            got = describe(mod)
+            try:
+                got = describe(mod)
+            except Exception as e:  # noqa: BLE001
+                res["violations"].append(dict(what=f"reloaded module ({label}) cannot be listed: {type(e).__name__}: {str(e)[:100]}", replay=dict(harness="C17", inst=inst, kind="listing", variant=label, previous=prev)))
+                continue
             diffs = [k for k in want if want[k] != got[k]]
             if diffs:
                 res["violations"].append(dict(what=f"reloaded module ({label}) differs from the compiled module in {diffs}" + (" (another module was stored under the same file name before)" if prev else ""),
@@ -170,7 +174,10 @@ def replay(spec):
                 mod = LinearIR.FilesystemModuleLoader().Load(os.path.join(tmp, "same"))
             except Exception as e:  # noqa: BLE001
                 return dict(load_failure=f"{type(e).__name__}: {e}")
-            want, got = describe(mem.IRModule), describe(mod)
+            try:
+                want, got = describe(mem.IRModule), describe(mod)
+            except Exception as e:  # noqa: BLE001
+                return dict(listing_failure=f"{type(e).__name__}: {e}")
             diffs = [k for k in want if want[k] != got[k]]
             return dict(differs_in=diffs) if diffs else None
         if kind == "driver":
@@ -183,7 +190,10 @@ def replay(spec):
             return dict(load_failure=f"{type(e).__name__}: {e}") if kind == "load" else None
         if kind == "load":
             return None
-        want, got = describe(mem.IRModule), describe(mod)
+        try:
+            want, got = describe(mem.IRModule), describe(mod)
+        except Exception as e:  # noqa: BLE001
+            return dict(listing_failure=f"{type(e).__name__}: {e}")
         if kind == "listing":
             diffs = [k for k in want if want[k] != got[k]]
             return dict(differs_in=diffs) if diffs else None
